@@ -9,27 +9,30 @@ open Gp.Pool
 /-- connection whose mutex a thread at this pc holds -/
 def PC.holds : PC → Option CId
   | .cb c _ _ => some c
-  | .rm c => some c
+  | .rm c _ => some c
   | _ => none
 
 /-- connection object a thread at this pc points to -/
 def PC.ptr : PC → Option CId
   | .lock c _ => some c
   | .cb c _ _ => some c
-  | .rm c => some c
+  | .rm c _ => some c
+  | .rm2 c => some c
   | _ => none
 
 @[simp] theorem holds_start : PC.holds .start = none := rfl
 @[simp] theorem holds_ins (sid : SId) : PC.holds (.ins sid) = none := rfl
 @[simp] theorem holds_lock (c : CId) (h : Bool) : PC.holds (.lock c h) = none := rfl
 @[simp] theorem holds_cb (c : CId) (h f : Bool) : PC.holds (.cb c h f) = some c := rfl
-@[simp] theorem holds_rm (c : CId) : PC.holds (.rm c) = some c := rfl
+@[simp] theorem holds_rm (c : CId) (k : List Bool) : PC.holds (.rm c k) = some c := rfl
+@[simp] theorem holds_rm2 (c : CId) : PC.holds (.rm2 c) = none := rfl
 @[simp] theorem holds_panicked : PC.holds .panicked = none := rfl
 @[simp] theorem ptr_start : PC.ptr .start = none := rfl
 @[simp] theorem ptr_ins (sid : SId) : PC.ptr (.ins sid) = none := rfl
 @[simp] theorem ptr_lock (c : CId) (h : Bool) : PC.ptr (.lock c h) = some c := rfl
 @[simp] theorem ptr_cb (c : CId) (h f : Bool) : PC.ptr (.cb c h f) = some c := rfl
-@[simp] theorem ptr_rm (c : CId) : PC.ptr (.rm c) = some c := rfl
+@[simp] theorem ptr_rm (c : CId) (k : List Bool) : PC.ptr (.rm c k) = some c := rfl
+@[simp] theorem ptr_rm2 (c : CId) : PC.ptr (.rm2 c) = some c := rfl
 @[simp] theorem ptr_panicked : PC.ptr .panicked = none := rfl
 
 def isPkt : List Op → Prop
@@ -38,6 +41,7 @@ def isPkt : List Op → Prop
 
 def isFlush : List Op → Prop
   | .flush :: _ => True
+  | .flushold _ _ :: _ => True
   | _ => False
 
 /-- First group of invariants: mutex ownership, object initialisation, no panic, well-formedness.
@@ -324,6 +328,18 @@ theorem invA_stepStart {s s' : State} {t : Tid} (h : InvA s) (hpc : (s.thr t).pc
         · intro l c' e hm; simp at e; subst e; exact vals_lt h (by simp [hv, hm])
         · simp
         · simp [ThreadWF, isFlush]
+    | flushold T ca =>
+      simp only [hp] at hs
+      cases hv : s.conns.vals with
+      | nil => simp only [hv] at hs; cases hs; exact invA_finishOp h t hh
+      | cons c r =>
+        simp only [hv] at hs; cases hs
+        apply invA_thr h t
+        · simp [hh]
+        · intro c' e; simp at e; subst e; exact vals_lt h (by simp [hv])
+        · intro l c' e hm; simp at e; subst e; exact vals_lt h (by simp [hv, hm])
+        · simp
+        · simp [ThreadWF, isFlush]
     | pkt k kind =>
       simp only [hp] at hs
       cases hg : getHalf s.conns k with
@@ -353,6 +369,7 @@ theorem invA_stepIns {s s' : State} {t : Tid} {sid : SId} (h : InvA s) (hpc : (s
   | cons op rest =>
     cases op with
     | flush => simp [hp, isPkt] at hpk
+    | flushold T ca => simp [hp, isPkt] at hpk
     | pkt k kind =>
       simp only [hp] at hs
       cases hf : s.free with
@@ -392,7 +409,8 @@ theorem invA_stepIns {s s' : State} {t : Tid} {sid : SId} (h : InvA s) (hpc : (s
             · cases e; right; simpa using hc
             · left; exact e
 
-/-- closeHalfConnection continuation, from an intermediate state `s1` in which `t` owns `c.mu`. -/
+/-- closeHalfConnection continuation inside AssembleWithContext, from an intermediate state `s1` in
+    which `t` owns `c.mu`. -/
 theorem invA_afterCloseHalf {s s1 : State} (h : InvA s) (t : Tid) (c : CId)
     (hc : c < s.nextC)
     (hthr : s1.thr = s.thr)
@@ -442,6 +460,168 @@ theorem invA_afterCloseHalf {s s1 : State} (h : InvA s) (t : Tid) (c : CId)
       · right; simp [h1]
     · exact hws
 
+/-- End of a Flush* visit of `c`, from an intermediate state `s1` in which `t` owns `c.mu`. -/
+theorem invA_flushEnd {s s1 : State} (h : InvA s) (t : Tid) (c : CId)
+    (hc : c < s.nextC)
+    (hthr : s1.thr = s.thr)
+    (hobj : ∀ c', c' ≠ c → s1.obj c' = s.obj c')
+    (hnc : s1.nextC = s.nextC)
+    (hmap : ∀ k c', (k, c') ∈ s1.conns → (k, c') ∈ s.conns ∨ c' < s.nextC)
+    (hfree : ∀ c', c' ∈ s1.free → c' ∈ s.free ∨ c' < s.nextC)
+    (hst : (s1.obj c).stream ≠ none)
+    (hcase : ((s.obj c).mu = none ∧ (s.thr t).pc.holds = none) ∨ (s.obj c).mu = some t)
+    (hsn : ∃ l, (s.thr t).snap = some l) : InvA (flushEnd s1 t c) := by
+  have hholds : (s.obj c).mu = some t → (s.thr t).pc.holds = some c := (h.mu_iff c t).1
+  have hws := h.wf_snap t
+  have hsl := h.snap_lt t
+  have hadv : InvA (advance (setObj s1 c { s1.obj c with mu := none }) t) := by
+    apply invA_advance h t c
+    · simp [hthr]
+    · intro c' e; simpa [e] using hobj c' e
+    · simp [hnc]
+    · simpa using hmap
+    · simpa using hfree
+    · intro _; simpa using hst
+    · rcases hcase with ⟨h1, h2⟩ | h1
+      · left; simp [h1, h2]
+      · right; simp [h1]
+    · exact hws
+  unfold flushEnd
+  dsimp only
+  split
+  · exact hadv
+  · split
+    · obtain ⟨l, hl⟩ := hsn
+      apply h.frame t c
+      · intro t' e; simp [e, hthr]
+      · intro c' e; simpa [e] using hobj c' e
+      · simp [hnc]
+      · intro c' h1 h2; simp [hnc] at h2; omega
+      · simpa [hnc] using hmap
+      · simpa [hnc] using hfree
+      · intro _; simpa using hst
+      · rcases hcase with ⟨h1, h2⟩ | h1
+        · left; simp [h1, h2]
+        · right; right; simp [h1]
+      · intro c' e; simp at e; subst e; simpa [hnc] using hc
+      · intro l' c' e hm; simp [hthr] at e; simpa [hnc] using hsl l' c' e hm
+      · simp
+      · simp only [setThr_thr, if_true, ThreadWF, hthr]
+        refine ⟨by simp, by simp, hws, ?_⟩
+        intro c' _ e; simp [hl] at e
+    · exact hadv
+
+theorem closeHalf_mu (o : Conn) (hb : Bool) : (o.closeHalf hb).mu = o.mu := by
+  unfold Conn.closeHalf; split <;> rfl
+theorem closeHalf_stream (o : Conn) (hb : Bool) : (o.closeHalf hb).stream = o.stream := by
+  unfold Conn.closeHalf; split <;> rfl
+theorem closeHalf_key (o : Conn) (hb : Bool) : (o.closeHalf hb).key = o.key := by
+  unfold Conn.closeHalf; split <;> rfl
+theorem setQ_mu (o : Conn) (hb : Bool) (q : Option Nat) : (o.setQ hb q).mu = o.mu := by
+  unfold Conn.setQ; split <;> rfl
+theorem setQ_stream (o : Conn) (hb : Bool) (q : Option Nat) : (o.setQ hb q).stream = o.stream := by
+  unfold Conn.setQ; split <;> rfl
+theorem setQ_key (o : Conn) (hb : Bool) (q : Option Nat) : (o.setQ hb q).key = o.key := by
+  unfold Conn.setQ; split <;> rfl
+theorem see_mu (o : Conn) (hb : Bool) (ts : Nat) : (o.see hb ts).mu = o.mu := by
+  unfold Conn.see; split <;> rfl
+theorem see_stream (o : Conn) (hb : Bool) (ts : Nat) : (o.see hb ts).stream = o.stream := by
+  unfold Conn.see; split <;> rfl
+theorem see_key (o : Conn) (hb : Bool) (ts : Nat) : (o.see hb ts).key = o.key := by
+  unfold Conn.see; split <;> rfl
+
+/-- A step of a Flush* visit that leaves `t` inside the critical section of `c` (at `cb` or `rm`),
+    from an intermediate state `s1` in which `t` owns `c.mu`; `o'` is the new value of the object. -/
+theorem invA_flushStay {s s1 : State} (h : InvA s) (t : Tid) (c : CId) (o' : Conn) (e : Ev) (pc' : PC)
+    (hc : c < s.nextC)
+    (hthr : s1.thr = s.thr)
+    (hobj : ∀ c', c' ≠ c → s1.obj c' = s.obj c')
+    (hnc : s1.nextC = s.nextC)
+    (hmap : ∀ k c', (k, c') ∈ s1.conns → (k, c') ∈ s.conns ∨ c' < s.nextC)
+    (hfree : ∀ c', c' ∈ s1.free → c' ∈ s.free ∨ c' < s.nextC)
+    (hmu' : o'.mu = some t) (hst' : o'.stream ≠ none)
+    (hcase : ((s.obj c).mu = none ∧ (s.thr t).pc.holds = none) ∨ (s.obj c).mu = some t)
+    (hsn : ∃ l, (s.thr t).snap = some l)
+    (hpc' : pc'.holds = some c ∧ pc'.ptr = some c ∧ pc' ≠ .panicked ∧ (∀ sid, pc' ≠ .ins sid) ∧ pc' ≠ .start) :
+    InvA (setThr (addLog (setObj s1 c o') e) t { s1.thr t with pc := pc' }) := by
+  have hholds : (s.obj c).mu = some t → (s.thr t).pc.holds = some c := (h.mu_iff c t).1
+  have hws := h.wf_snap t
+  have hsl := h.snap_lt t
+  obtain ⟨l, hl⟩ := hsn
+  obtain ⟨p1, p2, p3, p4, p5⟩ := hpc'
+  apply h.frame t c
+  · intro t' e; simp [e, hthr]
+  · intro c' e; simpa [e] using hobj c' e
+  · simp [hnc]
+  · intro c' h1 h2; simp [hnc] at h2; omega
+  · simpa [hnc] using hmap
+  · simpa [hnc] using hfree
+  · intro _; simpa using hst'
+  · rcases hcase with ⟨h1, h2⟩ | h1
+    · right; left; simp [h1, h2, hmu', p1]
+    · left; simp [h1, hmu', hholds h1, p1]
+  · intro c' e; simp [p2] at e; subst e; simpa [hnc] using hc
+  · intro l' c' e hm; simp [hthr] at e; simpa [hnc] using hsl l' c' e hm
+  · simpa using p3
+  · simp only [setThr_thr, if_true, ThreadWF, hthr]
+    refine ⟨fun sid e => absurd e (p4 sid), fun e => absurd e p5, hws, ?_⟩
+    intro c' _ e; simp [hl] at e
+
+/-- The loop of a Flush* visit over the halves `hs`, from an intermediate state `s1` in which `t` owns `c.mu`. -/
+theorem invA_flushHalves {s : State} (h : InvA s) (t : Tid) (c : CId) (hs : List Bool) :
+    ∀ (s1 : State),
+    c < s.nextC →
+    s1.thr = s.thr →
+    (∀ c', c' ≠ c → s1.obj c' = s.obj c') →
+    s1.nextC = s.nextC →
+    (∀ k c', (k, c') ∈ s1.conns → (k, c') ∈ s.conns ∨ c' < s.nextC) →
+    (∀ c', c' ∈ s1.free → c' ∈ s.free ∨ c' < s.nextC) →
+    (s1.obj c).mu = some t → (s1.obj c).stream ≠ none →
+    (((s.obj c).mu = none ∧ (s.thr t).pc.holds = none) ∨ (s.obj c).mu = some t) →
+    (∃ l, (s.thr t).snap = some l) → InvA (flushHalves s1 t c hs) := by
+  induction hs with
+  | nil =>
+    intro s1 hc hthr hobj hnc hmap hfree hmu1 hst hcase hsn
+    exact invA_flushEnd h t c hc hthr hobj hnc hmap hfree hst hcase hsn
+  | cons hb hs ih =>
+    intro s1 hc hthr hobj hnc hmap hfree hmu1 hst hcase hsn
+    unfold flushHalves
+    dsimp only
+    split
+    · exact ih s1 hc hthr hobj hnc hmap hfree hmu1 hst hcase hsn
+    · split
+      · -- deliver
+        cases hst2 : (s1.obj c).stream with
+        | none => exact absurd hst2 hst
+        | some sid =>
+          dsimp only
+          apply invA_flushStay h t c _ _ _ hc hthr hobj hnc hmap hfree _ _ hcase hsn
+          · simp
+          · rw [setQ_mu]; exact hmu1
+          · rw [setQ_stream]; exact hst
+      · split
+        · -- closeHalfConnection
+          split
+          · cases hst2 : (s1.obj c).stream with
+            | none => exact absurd hst2 hst
+            | some sid =>
+              dsimp only
+              apply invA_flushStay h t c _ _ _ hc hthr hobj hnc hmap hfree _ _ hcase hsn
+              · simp
+              · rw [closeHalf_mu]; exact hmu1
+              · rw [closeHalf_stream]; exact hst
+          · apply ih (setObj s1 c ((s1.obj c).closeHalf hb)) hc
+            · simpa using hthr
+            · intro c' e; simpa [e] using hobj c' e
+            · simpa using hnc
+            · simpa using hmap
+            · simpa using hfree
+            · simp [closeHalf_mu, hmu1]
+            · simp [closeHalf_stream, hst]
+            · exact hcase
+            · exact hsn
+        · exact ih s1 hc hthr hobj hnc hmap hfree hmu1 hst hcase hsn
+
 theorem invA_stepLock {s s' : State} {t : Tid} {c : CId} {hb : Bool} (h : InvA s) (hpc : (s.thr t).pc = .lock c hb)
     (hs : stepLock s t c hb = some s') : InvA s' := by
   have hh : (s.thr t).pc.holds = none := by simp [hpc]
@@ -459,23 +639,18 @@ theorem invA_stepLock {s s' : State} {t : Tid} {c : CId} {hb : Bool} (h : InvA s
       | some x => simp [hm] at hmu0
     cases hsn : (s.thr t).snap with
     | some l =>
-      have hfl := h.wf_snap t l hsn
       simp only [hsn] at hs
-      split at hs
-      · cases hs
-        exact invA_advance h t c rfl (fun _ _ => rfl) rfl (fun _ _ hm => Or.inl hm) (fun _ hm => Or.inl hm)
-          (fun _ => hst) (Or.inl ⟨rfl, hh⟩) (h.wf_snap t)
-      · cases hs
-        apply invA_afterCloseHalf h t c hc
-        · rfl
-        · intro c' e; simp [e]
-        · rfl
-        · rfl
-        · rfl
-        · simp
-        · simp
-        · left; exact ⟨hmu, hh⟩
-        · simp [hpc]
+      cases hs
+      apply invA_flushHalves h t c [true, false] _ hc
+      · rfl
+      · intro c' e; simp [e]
+      · rfl
+      · intro _ _ hm; exact Or.inl hm
+      · intro _ hm; exact Or.inl hm
+      · simp
+      · simpa using hst
+      · left; exact ⟨hmu, hh⟩
+      · exact ⟨l, hsn⟩
     | none =>
       have hpk := h.wf_ptr t c (by simp [hpc]) hsn
       simp only [hsn] at hs
@@ -484,6 +659,7 @@ theorem invA_stepLock {s s' : State} {t : Tid} {c : CId} {hb : Bool} (h : InvA s
       | cons op rest =>
         cases op with
         | flush => simp [hp, isPkt] at hpk
+        | flushold T ca => simp [hp, isPkt] at hpk
         | pkt k kind =>
           simp only [hp] at hs
           cases hst2 : (s.obj c).stream with
@@ -494,15 +670,27 @@ theorem invA_stepLock {s s' : State} {t : Tid} {c : CId} {hb : Bool} (h : InvA s
             · cases hs
               apply invA_advance h t c
               · rfl
-              · intro c' _; rfl
+              · intro c' e; simp [e]
               · rfl
               · intro _ _ hm; exact Or.inl hm
               · intro _ hm; exact Or.inl hm
-              · intro _; exact hst
-              · left; exact ⟨rfl, hh⟩
+              · intro _; simp [see_stream, hst]
+              · left; exact ⟨by simp [see_mu], hh⟩
               · exact h.wf_snap t
-            · cases hs
-              apply h.frame t c <;> fr_side
+            · split at hs
+              · cases hs
+                apply invA_advance h t c
+                · rfl
+                · intro c' e; simp [e]
+                · rfl
+                · intro _ _ hm; exact Or.inl hm
+                · intro _ hm; exact Or.inl hm
+                · intro _; simp [setQ_stream, see_stream, hst]
+                · left; exact ⟨by simp [setQ_mu, see_mu], hh⟩
+                · exact h.wf_snap t
+              · cases hs
+                apply h.frame t c <;> try fr_side
+                · intro _; simp [see_stream, hst]
 
 theorem invA_stepCb {s s' : State} {t : Tid} {c : CId} {hb fin : Bool} (h : InvA s) (hpc : (s.thr t).pc = .cb c hb fin)
     (hs : stepCb s t c hb fin = some s') : InvA s' := by
@@ -513,55 +701,136 @@ theorem invA_stepCb {s s' : State} {t : Tid} {c : CId} {hb fin : Bool} (h : InvA
   unfold stepCb at hs
   dsimp only at hs
   split at hs
-  · cases hs
-    apply invA_afterCloseHalf h t c hc
-    · rfl
-    · intro c' e; simp [e]
-    · rfl
-    · rfl
-    · rfl
-    · simp only [setObj_obj, if_true, Conn.closeHalf]; split <;> exact hmu
-    · simp only [setObj_obj, if_true, Conn.closeHalf]; split <;> rfl
-    · right; exact hmu
-    · simp [hpc]
-  · cases hs
-    apply invA_advance h t c
-    · rfl
-    · intro c' e; simp [e]
-    · rfl
-    · intro _ _ hm; exact Or.inl hm
-    · intro _ hm; exact Or.inl hm
-    · intro _; simpa using hst
-    · right; exact ⟨hmu, by simp⟩
-    · exact h.wf_snap t
+  · next hsn0 =>
+    have hsn : ∃ l, (s.thr t).snap = some l := by
+      cases hq : (s.thr t).snap with
+      | none => simp [hq] at hsn0
+      | some l => exact ⟨l, rfl⟩
+    split at hs
+    · cases hst2 : (s.obj c).stream with
+      | none => exact absurd hst2 hst
+      | some sid =>
+        simp only [hst2] at hs; cases hs
+        apply invA_flushStay h t c _ _ _ hc rfl (fun _ _ => rfl) rfl (fun _ _ hm => Or.inl hm) (fun _ hm => Or.inl hm) _ _ (Or.inr hmu) hsn
+        · simp
+        · rw [closeHalf_mu]; exact hmu
+        · rw [closeHalf_stream]; exact hst
+    · cases hs
+      apply invA_flushHalves h t c _ _ hc
+      · rfl
+      · intro c' e; simp [e]
+      · rfl
+      · intro _ _ hm; exact Or.inl hm
+      · intro _ hm; exact Or.inl hm
+      · simp [closeHalf_mu, hmu]
+      · simp [closeHalf_stream, hst]
+      · right; exact hmu
+      · exact hsn
+  · split at hs
+    · cases hs
+      apply invA_afterCloseHalf h t c hc
+      · rfl
+      · intro c' e; simp [e]
+      · rfl
+      · rfl
+      · rfl
+      · simp [closeHalf_mu, hmu]
+      · simp [closeHalf_stream]
+      · right; exact hmu
+      · simp [hpc]
+    · cases hs
+      apply invA_advance h t c
+      · rfl
+      · intro c' e; simp [e]
+      · rfl
+      · intro _ _ hm; exact Or.inl hm
+      · intro _ hm; exact Or.inl hm
+      · intro _; simpa using hst
+      · right; exact ⟨hmu, by simp⟩
+      · exact h.wf_snap t
 
-theorem invA_stepRm {s s' : State} {t : Tid} {c : CId} (h : InvA s) (hpc : (s.thr t).pc = .rm c)
-    (hs : stepRm s t c = some s') : InvA s' := by
+theorem doRemove_thr (s : State) (c : CId) : (doRemove s c).thr = s.thr := by unfold doRemove; split <;> rfl
+theorem doRemove_obj (s : State) (c : CId) : (doRemove s c).obj = s.obj := by unfold doRemove; split <;> rfl
+theorem doRemove_nextC (s : State) (c : CId) : (doRemove s c).nextC = s.nextC := by unfold doRemove; split <;> rfl
+theorem doRemove_nextS (s : State) (c : CId) : (doRemove s c).nextS = s.nextS := by unfold doRemove; split <;> rfl
+theorem doRemove_skey (s : State) (c : CId) : (doRemove s c).skey = s.skey := by unfold doRemove; split <;> rfl
+theorem doRemove_kept (s : State) (c : CId) : (doRemove s c).kept = s.kept := by unfold doRemove; split <;> rfl
+theorem doRemove_log (s : State) (c : CId) : (doRemove s c).log = s.log := by unfold doRemove; split <;> rfl
+
+theorem doRemove_map {s : State} {c : CId} {k : Key} {c' : CId} (hm : (k, c') ∈ (doRemove s c).conns) : (k, c') ∈ s.conns := by
+  unfold doRemove at hm
+  split at hm
+  · exact (KMap.mem_del hm).1
+  · exact hm
+
+theorem doRemove_free {s : State} {c : CId} {c' : CId} (hm : c' ∈ (doRemove s c).free) : c' ∈ s.free ∨ c' = c := by
+  unfold doRemove at hm
+  split at hm
+  · simp only [List.mem_cons] at hm
+    rcases hm with e | e
+    · exact Or.inr e
+    · exact Or.inl e
+  · exact Or.inl hm
+
+theorem invA_stepRm {s s' : State} {t : Tid} {c : CId} {cont : List Bool} (h : InvA s) (hpc : (s.thr t).pc = .rm c cont)
+    (hs : stepRm s t c cont = some s') : InvA s' := by
   have hh : (s.thr t).pc.holds = some c := by simp [hpc]
   have hmu : (s.obj c).mu = some t := (h.mu_iff c t).2 hh
   have hc : c < s.nextC := h.ptr_lt t c (by simp [hpc])
   have hst := h.inited c hc
+  have hfree : ∀ c', c' ∈ (doRemove s c).free → c' ∈ s.free ∨ c' < s.nextC := by
+    intro c' hm
+    rcases doRemove_free hm with e | e
+    · exact Or.inl e
+    · right; rw [e]; exact hc
   unfold stepRm at hs
-  simp only [Option.some.injEq] at hs; cases hs
+  dsimp only at hs
+  split at hs
+  · next hsn0 =>
+    have hsn : ∃ l, (s.thr t).snap = some l := by
+      cases hq : (s.thr t).snap with
+      | none => simp [hq] at hsn0
+      | some l => exact ⟨l, rfl⟩
+    cases hs
+    apply invA_flushHalves h t c _ _ hc
+    · exact doRemove_thr s c
+    · intro c' _; rw [doRemove_obj]
+    · exact doRemove_nextC s c
+    · intro k c' hm; exact Or.inl (doRemove_map hm)
+    · exact hfree
+    · rw [doRemove_obj]; exact hmu
+    · rw [doRemove_obj]; exact hst
+    · right; exact hmu
+    · exact hsn
+  · cases hs
+    apply invA_advance h t c
+    · simp [doRemove_thr]
+    · intro c' e; simp [e, doRemove_obj]
+    · simp [doRemove_nextC]
+    · intro k c' hm; exact Or.inl (doRemove_map (by simpa using hm))
+    · intro c' hm; exact hfree c' (by simpa using hm)
+    · intro _; simpa [doRemove_obj] using hst
+    · right; exact ⟨hmu, by simp⟩
+    · exact h.wf_snap t
+
+theorem invA_stepRm2 {s s' : State} {t : Tid} {c : CId} (h : InvA s) (hpc : (s.thr t).pc = .rm2 c)
+    (hs : stepRm2 s t c = some s') : InvA s' := by
+  have hh : (s.thr t).pc.holds = none := by simp [hpc]
+  have hc : c < s.nextC := h.ptr_lt t c (by simp [hpc])
+  have hst := h.inited c hc
+  unfold stepRm2 at hs
+  cases hs
   apply invA_advance h t c
-  · split <;> rfl
-  · intro c' e; simp only [setObj_obj, e, if_false]; split <;> rfl
-  · simp only [setObj_nextC]; split <;> rfl
-  · intro k c' hm
-    simp only [setObj_conns] at hm
-    split at hm
-    · left; exact (KMap.mem_del hm).1
-    · left; exact hm
+  · exact doRemove_thr s c
+  · intro c' _; rw [doRemove_obj]
+  · exact doRemove_nextC s c
+  · intro k c' hm; exact Or.inl (doRemove_map hm)
   · intro c' hm
-    simp only [setObj_free] at hm
-    split at hm
-    · simp only [List.mem_cons] at hm
-      rcases hm with e | e
-      · right; rw [e]; exact hc
-      · left; exact e
-    · left; exact hm
-  · intro _; simpa using hst
-  · right; exact ⟨hmu, by simp⟩
+    rcases doRemove_free hm with e | e
+    · exact Or.inl e
+    · right; rw [e]; exact hc
+  · intro _; rw [doRemove_obj]; exact hst
+  · left; exact ⟨by rw [doRemove_obj], hh⟩
   · exact h.wf_snap t
 
 theorem invA_step {s s' : State} {t : Tid} (h : InvA s) (hs : step true s t = some s') : InvA s' := by
@@ -571,7 +840,8 @@ theorem invA_step {s s' : State} {t : Tid} (h : InvA s) (hs : step true s t = so
   · next sid hpc => exact invA_stepIns h hpc hs
   · next c hb hpc => exact invA_stepLock h hpc hs
   · next c hb fin hpc => exact invA_stepCb h hpc hs
-  · next c hpc => exact invA_stepRm h hpc hs
+  · next c cont hpc => exact invA_stepRm h hpc hs
+  · next c hpc => exact invA_stepRm2 h hpc hs
   · cases hs
 
 /-- InvA holds in every reachable state of the FIXED reassembly pool (proposed_fixes/pool-1). -/
@@ -580,15 +850,99 @@ theorem invA_reachable (progs : Tid → List Op) : ∀ s, (sys true progs).Reach
 
 /-! ### The map: changes only by `set` (on a key absent in BOTH directions) and `del` -/
 
+theorem advance_conns (s : State) (t : Tid) : (advance s t).conns = s.conns := by
+  unfold advance; dsimp only; split <;> rfl
+
+theorem flushEnd_conns (s : State) (t : Tid) (c : CId) : (flushEnd s t c).conns = s.conns := by
+  unfold flushEnd; dsimp only
+  split
+  · rw [advance_conns]; rfl
+  · split
+    · rfl
+    · rw [advance_conns]; rfl
+
+theorem flushHalves_conns (t : Tid) (c : CId) (hs : List Bool) : ∀ s : State, (flushHalves s t c hs).conns = s.conns := by
+  induction hs with
+  | nil => intro s; exact flushEnd_conns s t c
+  | cons hb hs ih =>
+    intro s
+    unfold flushHalves; dsimp only
+    split
+    · exact ih s
+    · split
+      · split <;> rfl
+      · split
+        · split
+          · split <;> rfl
+          · rw [ih]; rfl
+        · exact ih s
+
+theorem afterCloseHalf_conns (s : State) (t : Tid) (c : CId) : (afterCloseHalf s t c).conns = s.conns := by
+  unfold afterCloseHalf; dsimp only
+  split
+  · split <;> rfl
+  · rw [advance_conns]; rfl
+
+theorem doRemove_conns (s : State) (c : CId) : (doRemove s c).conns = s.conns ∨ ∃ k, (doRemove s c).conns = s.conns.del k := by
+  unfold doRemove
+  split
+  · right; exact ⟨_, rfl⟩
+  · left; rfl
+
 theorem step_conns {fixed : Bool} {s s' : State} {t : Tid} (hs : step fixed s t = some s') :
     s'.conns = s.conns ∨ (∃ k c, getHalf s.conns k = none ∧ s'.conns = s.conns.set k c) ∨ (∃ k, s'.conns = s.conns.del k) := by
-  simp only [step, stepStart, stepIns, stepLock, stepCb, stepRm, afterCloseHalf, advance, finishOp, doPanic] at hs
-  repeat' split at hs
-  all_goals first
-    | (cases hs; done)
-    | (cases hs; left; rfl)
-    | (cases hs; right; left; refine ⟨_, _, ?_, rfl⟩; first | assumption | simp_all)
-    | (cases hs; right; right; exact ⟨_, rfl⟩)
+  unfold step at hs
+  split at hs
+  · simp only [stepStart, finishOp] at hs
+    repeat' split at hs
+    all_goals first
+      | (cases hs; done)
+      | (cases hs; left; rfl)
+  · simp only [stepIns, doPanic] at hs
+    repeat' split at hs
+    all_goals first
+      | (cases hs; done)
+      | (cases hs; left; rfl)
+      | (cases hs; right; left; refine ⟨_, _, ?_, rfl⟩; first | assumption | simp_all)
+  · left
+    simp only [stepLock] at hs
+    repeat' split at hs
+    all_goals first
+      | (cases hs; done)
+      | (cases hs; rw [flushHalves_conns]; rfl)
+      | (cases hs; rw [advance_conns]; rfl)
+      | (cases hs; rfl)
+  · left
+    simp only [stepCb] at hs
+    repeat' split at hs
+    all_goals first
+      | (cases hs; done)
+      | (cases hs; rw [flushHalves_conns]; rfl)
+      | (cases hs; rw [afterCloseHalf_conns]; rfl)
+      | (cases hs; rw [advance_conns]; rfl)
+      | (cases hs; rfl)
+  · next c cont _ =>
+    simp only [stepRm] at hs
+    split at hs
+    · cases hs
+      rw [flushHalves_conns]
+      rcases doRemove_conns s c with e | ⟨k, e⟩
+      · left; exact e
+      · right; right; exact ⟨k, e⟩
+    · cases hs
+      rw [advance_conns]
+      show (doRemove s c).conns = _ ∨ _
+      rcases doRemove_conns s c with e | ⟨k, e⟩
+      · left; exact e
+      · right; right; exact ⟨k, e⟩
+  · next c _ =>
+    simp only [stepRm2] at hs
+    cases hs
+    rw [advance_conns]
+    rcases doRemove_conns s c with e | ⟨k, e⟩
+    · left; exact e
+    · right; right; exact ⟨k, e⟩
+  · cases hs
 
 theorem keys_nodup_reachable (fixed : Bool) (progs : Tid → List Op) :
     ∀ s, (sys fixed progs).Reachable s → (KMap.keys s.conns).Nodup := by
@@ -647,10 +1001,14 @@ theorem oneDir_reachable (fixed : Bool) (progs : Tid → List Op) :
 
 theorem enabled_cb {fixed : Bool} {s : State} {t : Tid} {c : CId} {hb f : Bool} (hpc : (s.thr t).pc = .cb c hb f) :
     step fixed s t ≠ none := by
-  simp only [step, hpc, stepCb]; split <;> simp
+  simp only [step, hpc, stepCb]; (repeat' split) <;> simp
 
-theorem enabled_rm {fixed : Bool} {s : State} {t : Tid} {c : CId} (hpc : (s.thr t).pc = .rm c) : step fixed s t ≠ none := by
-  simp [step, hpc, stepRm]
+theorem enabled_rm {fixed : Bool} {s : State} {t : Tid} {c : CId} {cont : List Bool} (hpc : (s.thr t).pc = .rm c cont) :
+    step fixed s t ≠ none := by
+  simp only [step, hpc, stepRm]; split <;> simp
+
+theorem enabled_rm2 {fixed : Bool} {s : State} {t : Tid} {c : CId} (hpc : (s.thr t).pc = .rm2 c) : step fixed s t ≠ none := by
+  simp [step, hpc, stepRm2]
 
 theorem enabled_start {fixed : Bool} {s : State} {t : Tid} (hpc : (s.thr t).pc = .start) (hp : (s.thr t).prog ≠ []) :
     step fixed s t ≠ none := by
@@ -660,6 +1018,7 @@ theorem enabled_start {fixed : Bool} {s : State} {t : Tid} (hpc : (s.thr t).pc =
   | cons op rest =>
     cases op with
     | flush => dsimp only; (repeat' split) <;> simp
+    | flushold T ca => dsimp only; (repeat' split) <;> simp
     | pkt k kind => dsimp only; (repeat' split) <;> simp
 
 theorem enabled_ins {fixed : Bool} {s : State} {t : Tid} {sid : SId} (h : InvA s) (hpc : (s.thr t).pc = .ins sid) :
@@ -671,6 +1030,7 @@ theorem enabled_ins {fixed : Bool} {s : State} {t : Tid} {sid : SId} (h : InvA s
   | cons op rest =>
     cases op with
     | flush => simp [hq, isPkt] at hpk
+    | flushold T ca => simp [hq, isPkt] at hpk
     | pkt k kind => dsimp only; (repeat' split) <;> simp
 
 theorem enabled_lock {fixed : Bool} {s : State} {t : Tid} {c : CId} {hb : Bool} (h : InvA s) (hpc : (s.thr t).pc = .lock c hb)
@@ -678,9 +1038,7 @@ theorem enabled_lock {fixed : Bool} {s : State} {t : Tid} {c : CId} {hb : Bool} 
   simp only [step, hpc, stepLock, hmu]
   cases hsn : (s.thr t).snap with
   | some l =>
-    dsimp only
-    simp only [Option.isSome_none, Bool.false_eq_true, if_false]
-    (repeat' split) <;> simp
+    simp
   | none =>
     have hpk := h.wf_ptr t c (by simp [hpc]) hsn
     cases hq : (s.thr t).prog with
@@ -688,6 +1046,7 @@ theorem enabled_lock {fixed : Bool} {s : State} {t : Tid} {c : CId} {hb : Bool} 
     | cons op rest =>
       cases op with
       | flush => simp [hq, isPkt] at hpk
+      | flushold T ca => simp [hq, isPkt] at hpk
       | pkt k kind =>
         dsimp only
         simp only [Option.isSome_none, Bool.false_eq_true, if_false]
@@ -709,13 +1068,15 @@ theorem progress {fixed : Bool} {s : State} (h : InvA s) (t : Tid) (hnd : (s.thr
       have hh := (h.mu_iff c t').1 hm
       cases hpc' : (s.thr t').pc with
       | cb c' _ f => exact enabled_cb hpc'
-      | rm c' => exact enabled_rm hpc'
+      | rm c' _ => exact enabled_rm hpc'
+      | rm2 c' => simp [hpc'] at hh
       | start => simp [hpc'] at hh
       | ins _ => simp [hpc'] at hh
       | lock _ _ => simp [hpc'] at hh
       | panicked => simp [hpc'] at hh
   | cb c hb f => left; exact enabled_cb hpc
-  | rm c => left; exact enabled_rm hpc
+  | rm c cont => left; exact enabled_rm hpc
+  | rm2 c => left; exact enabled_rm2 hpc
   | panicked => exact absurd hpc (h.no_panic t)
 
 /-! ### Stream-level properties (stated on the event log and the ghost `skey`, `kept`) -/
